@@ -210,7 +210,13 @@ Lemma multiline_single : forall d, wfine d -> multiline_noquote d = d.
 Proof.
   intros d [[c [r [E Hc]]] [Hnl [l [Hl [Hls Hb]]]]]. unfold multiline_noquote. subst d.
   rewrite (splitlines_single c r Hnl). cbn [map join].
-  change (L " \" ++ [nl]) with [sp; ch 92; nl]. apply PureUtilsFacts.drop_last3_app.
+  change (L " \" ++ [nl]) with [sp; ch 92; nl]. rewrite PureUtilsFacts.drop_last3_app.
+  unfold rstrip_chars. apply (PureUtilsFacts.rstrip_by_last_false _ _ l Hl).
+  assert (E1 : ascii_eqb l sp = false).
+  { apply ascii_eqb_neq. intros E. subst l. discriminate. }
+  assert (E2 : ascii_eqb l nl = false).
+  { apply ascii_eqb_neq. intros E. subst l. discriminate. }
+  change (existsb (ascii_eqb l) [sp; nl] = false). cbn [existsb]. rewrite E1, E2. reflexivity.
 Qed.
 
 Lemma iabf_wfine : forall d n, wfine d -> indent_all_but_first d n false = d.
